@@ -357,7 +357,7 @@ Qed.
 Lemma recv_cer_q n cid m : quiet n (recv_cer n cid m).
 Proof.
   unfold recv_cer. destruct (get_conn n cid) as [c0|]; [|apply quiet_refl].
-  destruct (negb (cstate_eqb (c_state c0) SConnected)); [apply quiet_refl|].
+  destruct (negb (cstate_eqb (c_state c0) SConnected)); [apply quiet_nil; reflexivity|].
   destruct (pres_get (m_origin m)) as [host|]; [|apply quiet_refl].
   destruct (get_peer n host) as [p|].
   - cbv zeta.
